@@ -122,6 +122,30 @@ def pixelFt (sinc : K → K) (fx fy width_x width_y : K) : K := sinc (fx * width
 def olpfFt (cos : K → K) (fx fy width_x width_y : K) : K :=
   cos ((Num.ofInt 2 * width_x) * fx) * cos ((Num.ofInt 2 * width_y) * fy)
 
+/-- `objects.slit_ft(width_x, width_y, fx, fy)`; `hasx`/`hasy` = "width_x is not None" / "width_y is not None"
+(crossed slits: the SUM of the two sinc's; one slit: its sinc) -/
+def slitFt (sinc : K → K) (fx fy width_x width_y : K) (hasx hasy : Bool) : K :=
+  if hasx && hasy then sinc (fx * width_x) + sinc (fy * width_y)
+  else if hasx && !hasy then sinc (fx * width_x) else sinc (fy * width_y)
+
+/-- `objects.pinhole_ft(radius, fr) = jinc(fr · (radius · 2π))` -/
+def pinholeFt (jinc : K → K) (pi fr radius : K) : K := jinc (fr * ((radius * Num.ofInt 2) * pi))
+
+/-- `otf._difflim_mtf_core(ν) = (2/π)·(arccos ν − ν·sqrt(1 − ν²))` -/
+def difflimCore (arccos sqrt : K → K) (pi nu : K) : K :=
+  (Num.ofInt 2 / pi) * (arccos nu - nu * sqrt (Num.ofInt 1 - nu * nu))
+
+/-- the normalised frequency of `otf.diffraction_limited_mtf(fno, wavelength, frequencies)`: `|f / extinction|` with
+`extinction = 1 / (wavelength/1000 · fno)` [cy/mm], values above 1 clamped to 1 -/
+def difflimNu [LT K] [DecidableLT K] (abs : K → K) (f wavelength fno : K) : K :=
+  let extinction := Num.ofInt 1 / (wavelength / Num.ofInt 1000 * fno)
+  let nu := abs (f / extinction)
+  if nu > Num.ofInt 1 then Num.ofInt 1 else nu
+
+/-- `diffraction_limited_mtf(fno, wavelength, frequencies)` at one frequency -/
+def difflimMtf [LT K] [DecidableLT K] (arccos sqrt abs : K → K) (pi f wavelength fno : K) : K :=
+  difflimCore arccos sqrt pi (difflimNu abs f wavelength fno)
+
 end tfs
 
 /-! ## materialised arrays and the O(N²) DFT instance of `FOps` (driver) -/
